@@ -224,7 +224,8 @@ def manifests(root, hist="."):
     d = os.path.join(root, hist, ASC) if hist != "." else os.path.join(root, ASC)
     if not os.path.isdir(d):
         return []
-    return sorted(n for n in os.listdir(d) if n.endswith(".mhl"))
+    # AppleDouble twins ("._name.mhl") are documented as not being manifests
+    return sorted(n for n in os.listdir(d) if n.endswith(".mhl") and not n.startswith("._"))
 
 
 def asc_listing(root):
